@@ -23,7 +23,10 @@ RULE = ('exhaustive small scope: every non-decreasing spike train up to the tier
         '(thorough) spikes, dyadic and non-dyadic sample rates with exact time*rate, spike times handed over as float64 / '
         'float32 arrays or Python lists, symmetrize given or left to its default); trains of n coincident spikes of one '
         'cluster (n up to 300 / 3000; 65537 = the failing input of the repaired int32 defect only with VT_C15_BIG=1) judged '
-        'against the closed form of C15_coincident. Non-trivial = at least '
+        'against the closed form of C15_coincident; cluster_ids handed over as a Python list, a tuple or an int64 / int32 / '
+        'uint16 ndarray, and (corpus + one random case in four) a history of 1-2 earlier correlograms / firing_rate calls '
+        'in the same process on the SAME cluster_ids and labels objects, which the caller reorders / refills in place between '
+        'the calls (the observed call is judged on its own arguments). Non-trivial = at least '
         'one pair of spikes falls inside the window (some count is non-zero) / at least two spikes for '
         'firing_rate; distinct = distinct abstract input.')
 EXHAUSTIVE = {'quick': True, 'thorough': True}
@@ -240,7 +243,7 @@ def generate(tier, rng):
         cases.append(_hist(_mk([0, 1, 1, 3, 7], [5, 2, 5, 5, 2], None, 1, 2, 4, sym), 'list',
                            [{'fn': 'ccg', 'lab': [2, 5, 2, 2, 5]}]))
     for idt in ('int64', 'list'):
-        cases.append(_hist(_mkr([3, 5, 3, 3, 9, 5, 3, 9, 3, 3], [9, 3, 5], 1, 10), idt, [{'fn': 'rate', 'ids': [3, 5, 9]}]))
+        cases.append(_hist(_mkr([3, 5, 3, 3, 9, 5, 3, 9, 3, 3], [9, 3, 5], 1, 8), idt, [{'fn': 'rate', 'ids': [3, 5, 9]}]))
         cases.append(_hist(_mkr([4, 1, 4, 4], [1, 9, 4], F(1, 4), 2), idt, [{'fn': 'ccg', 'ids': [4, 1, 9]}]))
     for ids in ([4, 1, 9], [9, 4, 1], [4, 9, 1], [1, 4], None):
         cases.append(_mkr([4, 1, 4, 4], ids, F(1, 4), 2))
